@@ -30,6 +30,19 @@ T['C04'] = dict(engine='E4 serial',
   text='Generated search: every received_part time list of every station and the sink is compared exactly with the blocking-after-service recurrence written from the statement, for generated station kinds, cycle times, delays, capacities, budgets, horizons and tie-break policies; SingleProcessor (99) and BufferExample (10079) are fixed cases.',
   note='Constant parameters on the dyadic grid; the reference is independent of the code under test; 50000 events without clock progress is reported as the line never reaching its horizon.', ref='4 C04')
 
+T['C12'] = dict(engine='E5 maint', technique='property-based testing: Hypothesis-generated request streams (incl. requests issued from inside start/end hooks) on a real Maintainer, trace-validated against a reference acceptor',
+  text='Generated search; the reference acceptor (request order, skip what does not fit or whose target is busy) is fed with the observed occurrence stream and predicts create_work_order return values, the started set, available capacity after every event, exact end times, hooks once, cost once, nothing startable left waiting at quiescent instants.',
+  note='Trusted base: the documented scanning discipline (scan on request and on completion); starts within one instant compared as a set.', ref='4 C12')
+T['C18'] = dict(engine='E6 sched', technique='property-based testing: Hypothesis-generated timetables and registration histories against an independent timetable evaluator',
+  text='Generated search; current_state sampled every 1/4 time unit, schedule_update records and the full invocation log (kind, object, time argument, state, clock) compared exactly with the evaluator (prefix sums, modulo the period, last state forever; registration list semantics).',
+  note='Registration changes at one instant get distinct priorities different from the transition priority.', ref='4 C18')
+T['C19'] = dict(engine='E7 sensors', technique='property-based testing: Hypothesis-generated sensor set-ups on a real line against a sampling-schedule reference',
+  text='Generated search; periodic sample times by the same left fold of the interval (also non-dyadic), part-sensor selection 1, n+2, 2n+3, copies of probed values, callback order and arguments, capacity trimming and alignment of every series incl. time, Cms delivery exactly once.',
+  note='The probed attribute changes by events of higher priority than SENSOR so the expected value at a sample time is well defined.', ref='4 C19')
+T['C20'] = dict(engine='E8 lifecycle', technique='property-based testing: Hypothesis-generated lifecycle programs with two metamorphic twin relations (late-created vs created before the start)',
+  text='Generated search; registration with the latest system only, immediate initialisation of late-created assets, RuntimeError for older systems, find_assets vs list comprehension for 400 filter combinations, and the twin relations: a sub-model of every asset kind created inside an event at T equals (shifted by -T) the same sub-model created before the start; a device created at T downstream of a handler holding a blocked part equals the same line created before the start with its input blocked until T.',
+  note='Ids excluded from comparisons; tie-break policies fifo/lifo/const; scheduler objects registered by an event right after creation in both twins.', ref='4 C20')
+
 
 def e3(text, note, ref, tech):
     return dict(engine='E3 linefuzz', technique='property-based testing: Hypothesis-generated whole production models run through the real event queue under a step monitor; ' + tech,
@@ -102,6 +115,10 @@ def main():
              'kind_free_text': 'operation histories on ResourceManager vs reference pool / waiting-list model'},
             {'name': 'E4 serial', 'path': 'engines/serial.py', 'serves_properties': ['C04'],
              'kind_free_text': 'serial lines vs max-plus reference recurrence'},
+            {'name': 'E5 maint', 'path': 'engines/maint.py', 'serves_properties': ['C12'], 'kind_free_text': 'Maintainer vs reference acceptor'},
+            {'name': 'E6 sched', 'path': 'engines/sched.py', 'serves_properties': ['C18'], 'kind_free_text': 'ActionScheduler vs timetable evaluator'},
+            {'name': 'E7 sensors', 'path': 'engines/sensors.py', 'serves_properties': ['C19'], 'kind_free_text': 'sensors vs sampling schedule'},
+            {'name': 'E8 lifecycle', 'path': 'engines/lifecycle.py', 'serves_properties': ['C20'], 'kind_free_text': 'late-created vs early-created twins'},
             {'name': 'E3 linefuzz', 'path': 'engines/linefuzz.py', 'serves_properties': ['C02', 'C03', 'C05', 'C06', 'C08', 'C11', 'C13', 'C15', 'C16', 'C17'],
              'kind_free_text': 'generated whole production models + step monitor (engines/lf_model.py, lf_monitor.py, e3gen.py)'},
         ],
